@@ -74,31 +74,73 @@ ArgLists(sname) ==
                 \cup {<<Rep(a, 2), b>> : a \in Small, b \in Small \cup {ResD}}
            ELSE {})
 
+(* ---- CHARSET maps ------------------------------------------------------------------------------------------------ *)
+RangeOp(a, b, c) == [k |-> "range", a |-> a, b |-> b, c |-> c]
+OneOp(a, c) == [k |-> "one", a |-> a, c |-> c]
+StrOp(a, cs) == [k |-> "str", a |-> a, cs |-> cs]
+ResetOp == [k |-> "reset"]
+Id == <<>>
+Up == <<RangeOp(97, 122, 65)>>                    \* CHARSET 'a','z','A'
+Hi == <<OneOp(97, 200)>>                          \* a target code above 127
+Shift == <<RangeOp(65, 89, 66)>>                  \* A..Y -> B..Z: the image overlaps the domain
+Swap == <<OneOp(97, 98), OneOp(98, 97)>>          \* a <-> b
+Const == <<StrOp(97, <<88, 88, 88>>)>>            \* a, b, c -> X
+SetReset == Shift \o <<ResetOp>>                  \* set, then plain CHARSET: identity again
+Twice == Shift \o Shift                           \* assigning the same range twice is not a composition
+ResetThenSwap == Shift \o <<ResetOp>> \o Swap
+BasicMaps == {Id, Up, Hi}
+SweepMaps == {Id, Shift, Swap, Const, SetReset, Twice, ResetThenSwap, Up}
+
+\* strings with mapped and unmapped characters for every map above
+SweepStrings == {StrD(<<65, 66>>, FALSE), StrD(<<88, 89, 90, 97>>, FALSE), StrD(<<97, 98, 99, 100>>, FALSE), StrD(<<98, 97, 66, 65, 49>>, FALSE),
+                 StrD(<<65, 98>>, TRUE), StrD(<<89>>, TRUE)}
+\* every string argument with repeat counts 1..3 in the family's own notation, alone and next to other arguments
+StrSweep(sname) ==
+  LET st == StmtTable[sname]
+      reps(a) == IF st.fam = "intel" THEN {<<a>>} \cup {<<DupD(n, <<a>>)>> : n \in 1..3} \cup {<<DupD(2, <<a, IntD(FALSE, <<1>>, 10)>>)>>}
+                 ELSE IF st.fam \in {"moto", "m68"} THEN {<<a>>} \cup {<<Rep(a, n)>> : n \in 2..3} \cup {<<Rep(a, 2), a>>}
+                 ELSE {<<a>>}
+  IN IF st.ty = "flt" \/ st.fam = "ti" \/ st.w > 8 THEN {} ELSE UNION {reps(a) : a \in SweepStrings}
+
 ModesFor(sname) ==
-  LET st == StmtTable[sname] IN
+  LET st == StmtTable[sname]
+      M(b, p, o, c, l, c2) == [big |-> b, padding |-> p, pcodd |-> o, cs |-> c, lg |-> l, sweep |-> FALSE, cs2 |-> c2]
+  IN
   \* lg: list granularity of the target that assembles the statement (2: 680x0, code is kept in words; 1: 68xx, in bytes)
-  CASE st.fam = "moto" -> {[big |-> TRUE, padding |-> p, pcodd |-> o, cs |-> c, lg |-> 2] : p \in BOOLEAN, o \in BOOLEAN, c \in {"id"}}
-                          \cup {[big |-> TRUE, padding |-> TRUE, pcodd |-> FALSE, cs |-> c, lg |-> 2] : c \in {"up", "hi"}}
-                          \cup {[big |-> TRUE, padding |-> FALSE, pcodd |-> TRUE, cs |-> "id", lg |-> 1]}
-    [] st.fam = "intel" -> {[big |-> b, padding |-> FALSE, pcodd |-> o, cs |-> "id", lg |-> 1] : b \in BOOLEAN, o \in BOOLEAN}
-                           \cup {[big |-> FALSE, padding |-> FALSE, pcodd |-> FALSE, cs |-> c, lg |-> 1] : c \in {"up", "hi"}}
-    [] OTHER -> {[big |-> st.order = "big", padding |-> FALSE, pcodd |-> o, cs |-> c, lg |-> 1] : o \in BOOLEAN, c \in {"id", "up"}}
+  \* sweep = TRUE: the string x repeat x CHARSET sweep; cs2 # <<>>: the statement is assembled twice, cs2 in between
+  CASE st.fam = "moto" -> {M(TRUE, p, o, Id, 2, <<>>) : p \in BOOLEAN, o \in BOOLEAN}
+                          \cup {M(TRUE, TRUE, FALSE, c, 2, <<>>) : c \in {Up, Hi}}
+                          \cup {M(TRUE, FALSE, TRUE, Id, 1, <<>>)}
+    [] st.fam = "intel" -> {M(b, FALSE, o, Id, 1, <<>>) : b \in BOOLEAN, o \in BOOLEAN}
+                           \cup {M(FALSE, FALSE, FALSE, c, 1, <<>>) : c \in {Up, Hi}}
+    [] OTHER -> {M(st.order = "big", FALSE, o, c, 1, <<>>) : o \in BOOLEAN, c \in {Id, Up}}
+SweepModesFor(sname) ==
+  LET st == StmtTable[sname]
+      S(b, c, l, c2) == [big |-> b, padding |-> FALSE, pcodd |-> FALSE, cs |-> c, lg |-> l, sweep |-> TRUE, cs2 |-> c2]
+      bigs == IF st.order = "mode" THEN BOOLEAN ELSE {st.order = "big"}
+      lgs == IF st.fam = "moto" THEN {1, 2} ELSE {1}
+  IN IF StrSweep(sname) = {} THEN {}
+     ELSE {S(b, c, l, <<>>) : b \in bigs, c \in SweepMaps, l \in lgs}
+          \* CHARSET changes between two copies of the statement: reset, a further assignment, a first assignment
+          \cup {S(b, Shift, l, <<ResetOp>>) : b \in bigs, l \in lgs} \cup {S(b, Swap, l, <<OneOp(97, 120)>>) : b \in bigs, l \in lgs}
+          \cup {S(b, Id, l, Shift) : b \in bigs, l \in lgs} \cup {S(b, Shift, l, Shift) : b \in bigs, l \in lgs}
 
 VARIABLES sname, md, args
 vars == <<sname, md, args>>
 None == <<>>
-Init == sname \in DOMAIN StmtTable /\ md \in ModesFor(sname) /\ args = None
+Init == sname \in DOMAIN StmtTable /\ md \in ModesFor(sname) \cup SweepModesFor(sname) /\ args = None
 Next == /\ args = None
-        /\ args' \in {al \in ArgLists(sname) :
+        /\ args' \in IF md.sweep THEN StrSweep(sname) ELSE
+                   {al \in ArgLists(sname) :
                         \* the float sweeps and the boundary integers need only one mode each (the other modes use the rest)
-                        (Len(al) = 1 /\ al[1].k \in {"flt", "int"} /\ ~(md.cs = "id" /\ ~md.pcodd) /\ ~(StmtTable[sname].fam = "moto" /\ md.lg = 1 /\ Level >= 2))
+                        (Len(al) = 1 /\ al[1].k \in {"flt", "int"} /\ ~(md.cs = Id /\ ~md.pcodd) /\ ~(StmtTable[sname].fam = "moto" /\ md.lg = 1 /\ Level >= 2))
                            => al[1] \in Small \cup {FltD(0, 3, 0 - 1), FltD(0, 1, 0), FltD(1, 5, 0 - 2)}}
         /\ UNCHANGED <<sname, md>>
 Spec == Init /\ [][Next]_vars
 
 St == StmtTable[sname]
 Vals == [i \in 1..Len(args) |-> ArgVal(args[i])]
-L == Layout(sname, Vals, md)
+L == IF md.cs2 = <<>> THEN Layout(sname, Vals, md) ELSE LayoutTwice(sname, Vals, md, md.cs2)
 Big == IF St.order = "mode" THEN md.big ELSE St.order = "big"
 
 (* ---- laws ----------------------------------------------------------------------------------------------------- *)
@@ -135,7 +177,7 @@ SumElems(as) == IF as = <<>> THEN 0 ELSE CountElems(Head(as)) + SumElems(Tail(as
 LengthIsElementsTimesWidth ==
   (args # None /\ L.k \in {"data", "reserve"}) =>
      LET unit == IF St.fam = "ti" /\ St.w = 1 THEN 2 ELSE St.w
-         n == SumElems(Vals) * unit
+         n == SumElems(Vals) * unit * (IF md.cs2 = <<>> THEN 1 ELSE 2)     \* assembled twice around a CHARSET change
      IN IF L.k = "data" THEN Len(L.b) = n ELSE L.n = n
 
 PaddingRule ==
@@ -145,10 +187,46 @@ RECURSIVE Kinds(_)
 Kinds(as) == IF as = <<>> THEN {} ELSE (IF Head(as).k = "dup" THEN Kinds(Head(as).args) ELSE {Head(as).k = "res"}) \cup Kinds(Tail(as))
 MixingIsAnError == (args # None /\ Kinds(Vals) = {TRUE, FALSE}) => L.k \in {"error", "unspec"}
 
+(* ---- strings, CHARSET and repetition ------------------------------------------------------------------------------ *)
+\* the lazy lookup used by Layout is the function value
+LookupIsTheTable == args # None /\ md.sweep => \A c \in {65, 66, 88, 89, 90, 97, 98, 99, 100, 49, 200} : Table(md.cs)[c] = MapChar(md.cs, c)
+\* CHARSET statements assign, they do not compose; a plain CHARSET restores the identity
+TableFacts ==
+  /\ Table(Shift)[65] = 66 /\ Table(Shift)[89] = 90 /\ Table(Shift)[90] = 90 /\ Table(Twice) = Table(Shift)
+  /\ Table(Swap)[97] = 98 /\ Table(Swap)[98] = 97 /\ Table(SetReset) = IdTable /\ Table(ResetThenSwap) = Table(Swap)
+  /\ Table(Const)[97] = 88 /\ Table(Const)[99] = 88 /\ Table(Const)[100] = 100
+
+\* what one copy of a string argument lays down, said directly: per character Table[c], zero-extended to the element width
+ElemOf(code, w, big) == LET be == [i \in 1..w |-> IF i = w THEN code ELSE 0] IN IF big THEN be ELSE Reverse(be)
+RECURSIVE CharElems(_, _, _)
+CharElems(cs, w, big) == IF cs = <<>> THEN <<>> ELSE ElemOf(Table(md.cs)[Head(cs)], w, big) \o CharElems(Tail(cs), w, big)
+ElemsOfInt(v) == LET be == [i \in 1..St.w |-> IF i = St.w THEN v % 256 ELSE IF i = St.w - 1 THEN v \div 256 ELSE 0]
+                 IN IF Big THEN be ELSE Reverse(be)
+OnceTranslated(a) ==
+  IF a.sq /\ Len(a.cs) \in 1..4 /\ Len(a.cs) <= St.w /\ St.ty # "str"
+  THEN LET RECURSIVE V(_, _) V(cs, acc) == IF cs = <<>> THEN acc ELSE V(Tail(cs), acc * 256 + Table(md.cs)[Head(cs)])
+           v == V(a.cs, 0)                                  \* multi-character constant, at most 2^32 - 1 ... kept to w <= 2 here
+       IN IF St.w = 1 THEN <<v>> ELSE IF Len(a.cs) <= 2 THEN ElemsOfInt(v) ELSE <<>>
+  ELSE CharElems(a.cs, St.w, Big)
+\* every copy is the string translated exactly once
+EveryCopyTranslatedOnce ==
+  (args # None /\ md.sweep /\ md.cs2 = <<>> /\ Len(args) = 1 /\ L.k = "data") =>
+     LET a == args[1] IN
+     IF a.k = "str" /\ ~(a.sq /\ Len(a.cs) > 2 /\ Len(a.cs) <= St.w)
+     THEN L.b = RepeatSeq(OnceTranslated(a), IF "rep" \in DOMAIN a THEN a.rep ELSE 1)
+     ELSE IF a.k = "dup" /\ Len(a.args) = 1 /\ a.args[1].k = "str" /\ ~(a.args[1].sq /\ Len(a.args[1].cs) > 2 /\ Len(a.args[1].cs) <= St.w)
+     THEN L.b = RepeatSeq(OnceTranslated(a.args[1]), a.n)
+     ELSE TRUE
+\* assembled twice with CHARSET statements in between = the two layouts under the two tables, one after the other
+TwiceIsBothTables ==
+  (args # None /\ md.cs2 # <<>> /\ L.k = "data") =>
+     L.b = Layout(sname, Vals, md).b \o Layout(sname, Vals, [md EXCEPT !.cs = md.cs \o md.cs2]).b
+
 FloatLayoutIsTheEncoder ==
   (args # None /\ Len(args) = 1 /\ args[1].k = "flt" /\ L.k = "data" /\ St.fmt = "half") =>
      LET be == IF Big THEN L.b ELSE Reverse(L.b) IN be[1] * 256 + be[2] = HalfBits(Vals[1].v)
 
 Emit == args # None =>
   PrintT(<<"OUT", ToJson([stmt |-> sname, fam |-> St.fam, w |-> St.w, args |-> args, md |-> md, o |-> L, dev |-> Devs(sname, Vals, md)])>>)
+ASSUME TableFacts
 =============================================================================
